@@ -43,7 +43,21 @@ func (c *Ctx) serveModel() (*serveModel, string) {
 	m := &serveModel{F: f}
 	rp := c.Func("readPacket")
 	eachInstr(f, func(in ssa.Instruction) {
-		if call, ok := in.(*ssa.Call); ok && rp != nil && c.StaticCalleeOf(&call.Call) == rp {
+		call, ok := in.(*ssa.Call)
+		if !ok {
+			return
+		}
+		g := c.StaticCalleeOf(&call.Call)
+		if g == nil || g.Pkg != c.Pkg {
+			return
+		}
+		if g == rp {
+			m.Read = call
+			return
+		}
+		// by role: the call returning (packetType, byte, []byte, error)
+		res := g.Signature.Results()
+		if m.Read == nil && res.Len() == 4 && typeName(res.At(0).Type()) == "packetType" && types.TypeString(res.At(3).Type(), nil) == "error" {
 			m.Read = call
 		}
 	})
